@@ -819,6 +819,39 @@ pub fn run_c03(ctx: &mut Ctx) {
     );
     run_prop(
         ctx,
+        "positions_with_very_many_legal_moves",
+        || (prop_oneof![1 => placement_crowd(), 3 => placement_fan()], 0u8..4),
+        t.pick(260, 6_000),
+        |(r, second), st| {
+            let Some(p) = build_placement(r) else {
+                st.label("recipe_discarded");
+                return Ok(());
+            };
+            let n = p.legal_moves().len();
+            if n < 60 {
+                st.label("fewer_than_60_moves_skip");
+                return Ok(());
+            }
+            st.eval();
+            st.label(if n > 128 { "more_than_128_legal_moves" } else if n >= 100 { "100_to_128_legal_moves" } else { "60_to_99_legal_moves" });
+            let go2 = ["go", "go wtime 160 btime 160 movestogo 2", "go wtime 400 btime 400", "go movestogo 1 wtime 130 btime 130"][*second as usize % 4];
+            let v = json!({"position": format!("position fen {}", p.fen()), "gos": ["go", go2]});
+            st.sample(|| v.clone());
+            if n >= 100 {
+                st.nontrivial(fp(&v.to_string()));
+            }
+            replay_go_session(&v, false)
+        },
+        |(r, second)| match build_placement(r) {
+            Some(p) => {
+                let go2 = ["go", "go wtime 160 btime 160 movestogo 2", "go wtime 400 btime 400", "go movestogo 1 wtime 130 btime 130"][*second as usize % 4];
+                json!({"position": format!("position fen {}", p.fen()), "gos": ["go", go2]})
+            }
+            None => json!({"position": null}),
+        },
+    );
+    run_prop(
+        ctx,
         "very_long_move_lists",
         long_game_strategy,
         t.pick(48, 1_200),
